@@ -68,9 +68,9 @@ const c15LsatHead = "func (w *Way) LineStringAt(t time.Time) orb.LineString {\n\
 const (
 	c15LateOK   = "pending = append(pending, u)\n\t\t\tcontinue"
 	c15Closure  = "func(u Update) error { return w.applyUpdate(u) }"
-	c15OldLsat  = "\tfor _, u := range w.Updates {\n\t\tif u.Timestamp.After(t) {\n\t\t\tcontinue\n\t\t}\n\n\t\tif u.Index >= len(ls) {\n\t\t\tcontinue\n\t\t}\n\n\t\tls[u.Index][0] = u.Lon\n\t\tls[u.Index][1] = u.Lat\n\t}\n"
-	c15OldCopy  = "\tif u.Index >= len(w.Nodes) {\n\t\treturn &UpdateIndexOutOfRangeError{Index: u.Index}\n\t}\n\n\tw.Nodes[u.Index].Version = u.Version\n\tw.Nodes[u.Index].ChangesetID = u.ChangesetID\n\tw.Nodes[u.Index].Lat = u.Lat\n\tw.Nodes[u.Index].Lon = u.Lon\n"
-	c15OldRCopy = "\tif u.Index >= len(r.Members) {\n\t\treturn &UpdateIndexOutOfRangeError{Index: u.Index}\n\t}\n\n\tr.Members[u.Index].Version = u.Version\n\tr.Members[u.Index].ChangesetID = u.ChangesetID\n\tr.Members[u.Index].Lat = u.Lat\n\tr.Members[u.Index].Lon = u.Lon\n\n\tif u.Reverse {\n\t\tr.Members[u.Index].Orientation *= -1\n\t}\n"
+	c15OldLsat  = "\tfor _, u := range w.Updates {\n\t\tif u.Timestamp.After(t) {\n\t\t\tcontinue\n\t\t}\n\n\t\tif u.Index < 0 || u.Index >= len(ls) {\n\t\t\tcontinue\n\t\t}\n\n\t\tls[u.Index][0] = u.Lon\n\t\tls[u.Index][1] = u.Lat\n\t}\n"
+	c15OldCopy  = "\tif u.Index < 0 || u.Index >= len(w.Nodes) {\n\t\treturn &UpdateIndexOutOfRangeError{Index: u.Index}\n\t}\n\n\tw.Nodes[u.Index].Version = u.Version\n\tw.Nodes[u.Index].ChangesetID = u.ChangesetID\n\tw.Nodes[u.Index].Lat = u.Lat\n\tw.Nodes[u.Index].Lon = u.Lon\n"
+	c15OldRCopy = "\tif u.Index < 0 || u.Index >= len(r.Members) {\n\t\treturn &UpdateIndexOutOfRangeError{Index: u.Index}\n\t}\n\n\tr.Members[u.Index].Version = u.Version\n\tr.Members[u.Index].ChangesetID = u.ChangesetID\n\tr.Members[u.Index].Lat = u.Lat\n\tr.Members[u.Index].Lon = u.Lon\n\n\tif u.Reverse {\n\t\tr.Members[u.Index].Orientation *= -1\n\t}\n"
 )
 
 var c15Benign2 = []core.Mutant{
@@ -88,16 +88,16 @@ var c15Benign2 = []core.Mutant{
 		Replace: "func (w *Way) ApplyUpdatesUpTo(t time.Time) error {\n\tkeep, err := scanUpdates(w.Updates, t, w.applyUpdate)\n\tif err == nil {\n\t\tw.Updates = keep\n\t}\n\n\treturn err\n}\n\nfunc scanUpdates(list Updates, limit time.Time, step func(Update) error) ([]Update, error) {\n\tvar keep []Update\n\tfor i := range list {\n\t\tif list[i].Timestamp.After(limit) {\n\t\t\tkeep = append(keep, list[i])\n\t\t} else if err := step(list[i]); err != nil {\n\t\t\treturn nil, err\n\t\t}\n\t}\n\n\treturn keep, nil\n}"},
 	// element pointer taken once after the flipped guard, written through
 	{Name: "way-element-pointer", File: "way.go", Find: c15OldCopy,
-		Replace: "\tif len(w.Nodes) <= u.Index {\n\t\treturn &UpdateIndexOutOfRangeError{Index: u.Index}\n\t}\n\n\tn := &w.Nodes[u.Index]\n\tn.Version = u.Version\n\tn.ChangesetID = u.ChangesetID\n\tn.Lat = u.Lat\n\tn.Lon = u.Lon\n"},
+		Replace: "\tif u.Index < 0 || len(w.Nodes) <= u.Index {\n\t\treturn &UpdateIndexOutOfRangeError{Index: u.Index}\n\t}\n\n\tn := &w.Nodes[u.Index]\n\tn.Version = u.Version\n\tn.ChangesetID = u.ChangesetID\n\tn.Lat = u.Lat\n\tn.Lon = u.Lon\n"},
 	{Name: "rel-element-pointer", File: "relation.go", Find: c15OldRCopy,
-		Replace: "\tif len(r.Members) <= u.Index {\n\t\treturn &UpdateIndexOutOfRangeError{Index: u.Index}\n\t}\n\n\tm := &r.Members[u.Index]\n\tm.Version = u.Version\n\tm.ChangesetID = u.ChangesetID\n\tm.Lat = u.Lat\n\tm.Lon = u.Lon\n\n\tif u.Reverse {\n\t\tm.Orientation *= -1\n\t}\n"},
+		Replace: "\tif u.Index < 0 || len(r.Members) <= u.Index {\n\t\treturn &UpdateIndexOutOfRangeError{Index: u.Index}\n\t}\n\n\tm := &r.Members[u.Index]\n\tm.Version = u.Version\n\tm.ChangesetID = u.ChangesetID\n\tm.Lat = u.Lat\n\tm.Lon = u.Lon\n\n\tif u.Reverse {\n\t\tm.Orientation *= -1\n\t}\n"},
 	// LineStringAt split: a helper on the node list builds the points and overlays the updates
 	{Name: "lsat-split", File: "way.go",
 		Find:    c15LsatHead + c15OldLsat,
-		Replace: "func (wn WayNodes) pointsAt(updates Updates, t time.Time) orb.LineString {\n\tls := make(orb.LineString, 0, len(wn))\n\tfor _, n := range wn {\n\t\tls = append(ls, n.Point())\n\t}\n\n\tfor _, u := range updates {\n\t\tif u.Timestamp.After(t) || u.Index >= len(ls) {\n\t\t\tcontinue\n\t\t}\n\n\t\tls[u.Index] = orb.Point{u.Lon, u.Lat}\n\t}\n\n\treturn ls\n}\n\nfunc (w *Way) LineStringAt(t time.Time) orb.LineString {\n\tls := w.Nodes.pointsAt(w.Updates, t)\n"},
+		Replace: "func (wn WayNodes) pointsAt(updates Updates, t time.Time) orb.LineString {\n\tls := make(orb.LineString, 0, len(wn))\n\tfor _, n := range wn {\n\t\tls = append(ls, n.Point())\n\t}\n\n\tfor _, u := range updates {\n\t\tif u.Timestamp.After(t) || u.Index < 0 || u.Index >= len(ls) {\n\t\t\tcontinue\n\t\t}\n\n\t\tls[u.Index] = orb.Point{u.Lon, u.Lat}\n\t}\n\n\treturn ls\n}\n\nfunc (w *Way) LineStringAt(t time.Time) orb.LineString {\n\tls := w.Nodes.pointsAt(w.Updates, t)\n"},
 	// the overlay step of LineStringAt passed as a function literal to a generic visitor
 	{Name: "lsat-visitor", File: "way.go", Find: c15LsatHead + c15OldLsat,
-		Replace: "func (us Updates) eachUpTo(t time.Time, visit func(Update)) {\n\tfor _, u := range us {\n\t\tif !u.Timestamp.After(t) {\n\t\t\tvisit(u)\n\t\t}\n\t}\n}\n\n" + c15LsatHead + "\tw.Updates.eachUpTo(t, func(u Update) {\n\t\tif u.Index < len(ls) {\n\t\t\tls[u.Index][0] = u.Lon\n\t\t\tls[u.Index][1] = u.Lat\n\t\t}\n\t})\n"},
+		Replace: "func (us Updates) eachUpTo(t time.Time, visit func(Update)) {\n\tfor _, u := range us {\n\t\tif !u.Timestamp.After(t) {\n\t\t\tvisit(u)\n\t\t}\n\t}\n}\n\n" + c15LsatHead + "\tw.Updates.eachUpTo(t, func(u Update) {\n\t\tif u.Index >= 0 && u.Index < len(ls) {\n\t\t\tls[u.Index][0] = u.Lon\n\t\t\tls[u.Index][1] = u.Lat\n\t\t}\n\t})\n"},
 }
 
 var c15Mutants2 = []core.Mutant{
@@ -131,15 +131,15 @@ var c15Mutants2 = []core.Mutant{
 		ExpectRule: "U1", ExpectConstruct: "loop@(*Way).ApplyUpdatesUpTo"},
 	// element pointer taken before the bounds check
 	{Name: "pointer-before-guard", File: "way.go", Find: c15OldCopy,
-		Replace:    "\tn := &w.Nodes[u.Index]\n\tif len(w.Nodes) <= u.Index {\n\t\treturn &UpdateIndexOutOfRangeError{Index: u.Index}\n\t}\n\n\tn.Version = u.Version\n\tn.ChangesetID = u.ChangesetID\n\tn.Lat = u.Lat\n\tn.Lon = u.Lon\n",
+		Replace:    "\tn := &w.Nodes[u.Index]\n\tif u.Index < 0 || len(w.Nodes) <= u.Index {\n\t\treturn &UpdateIndexOutOfRangeError{Index: u.Index}\n\t}\n\n\tn.Version = u.Version\n\tn.ChangesetID = u.ChangesetID\n\tn.Lat = u.Lat\n\tn.Lon = u.Lon\n",
 		ExpectRule: "U3", ExpectConstruct: "index@Way.Nodes"},
 	// element copied instead of pointed to: the writes are lost
 	{Name: "rel-element-copy", File: "relation.go", Find: c15OldRCopy,
-		Replace:    "\tif len(r.Members) <= u.Index {\n\t\treturn &UpdateIndexOutOfRangeError{Index: u.Index}\n\t}\n\n\tm := r.Members[u.Index]\n\tm.Version = u.Version\n\tm.ChangesetID = u.ChangesetID\n\tm.Lat = u.Lat\n\tm.Lon = u.Lon\n\n\tif u.Reverse {\n\t\tm.Orientation *= -1\n\t}\n",
+		Replace:    "\tif u.Index < 0 || len(r.Members) <= u.Index {\n\t\treturn &UpdateIndexOutOfRangeError{Index: u.Index}\n\t}\n\n\tm := r.Members[u.Index]\n\tm.Version = u.Version\n\tm.ChangesetID = u.ChangesetID\n\tm.Lat = u.Lat\n\tm.Lon = u.Lon\n\n\tif u.Reverse {\n\t\tm.Orientation *= -1\n\t}\n",
 		ExpectRule: "U4", ExpectConstruct: "copy@Relation.Members"},
 	// split LineStringAt whose helper stops at the first update after t
 	{Name: "lsat-split-break", File: "way.go",
 		Find:       c15LsatHead + c15OldLsat,
-		Replace:    "func (wn WayNodes) overlay(ls orb.LineString, updates Updates, t time.Time) {\n\tfor _, u := range updates {\n\t\tif u.Timestamp.After(t) {\n\t\t\tbreak\n\t\t}\n\n\t\tif u.Index < len(ls) {\n\t\t\tls[u.Index] = orb.Point{u.Lon, u.Lat}\n\t\t}\n\t}\n}\n\n" + c15LsatHead + "\tw.Nodes.overlay(ls, w.Updates, t)\n",
+		Replace:    "func (wn WayNodes) overlay(ls orb.LineString, updates Updates, t time.Time) {\n\tfor _, u := range updates {\n\t\tif u.Timestamp.After(t) {\n\t\t\tbreak\n\t\t}\n\n\t\tif u.Index >= 0 && u.Index < len(ls) {\n\t\t\tls[u.Index] = orb.Point{u.Lon, u.Lat}\n\t\t}\n\t}\n}\n\n" + c15LsatHead + "\tw.Nodes.overlay(ls, w.Updates, t)\n",
 		ExpectRule: "U1", ExpectConstruct: "loop@(*Way).LineStringAt"},
 }
